@@ -135,6 +135,11 @@ impl OodFrame {
         } else {
             None
         };
+        // make sure no bytes are left over after the Lagrange kernel frame: bytes which are parsed into
+        // nothing would be ignored by the verifier, and so would not be bound to anything it checks
+        if reader.has_more_bytes() {
+            return Err(DeserializationError::UnconsumedBytes);
+        }
 
         // if there is a Lagrange kernel, we treat its associated entries separately above
         let aux_trace_width = aux_trace_width - (lagrange_kernel_frame.is_some() as usize);
